@@ -30,7 +30,21 @@ VGiant(x) == LET need == Worst(x.nb) * x.km + Worst(x.nb) * x.vm IN
      FailIf(need > IntMaxMillions /\ x.rc = 0, "C17", "required size exceeds INT_MAX but a (wrapped) figure was returned with success")
   \o FailIf(x.rc = 0 /\ (~x.nonneg \/ x.reqm < need), "C17", "reported size is smaller than the worst case")
 
-V(x) == CASE x.e = "ComposeReq" -> VComposeReq(x) [] x.e = "Compose" -> VCompose(x) [] x.e = "ComposeMalloc" -> VComposeMalloc(x)
+\* the boundary itself: the list's exact worst-case size (lengths only; keys share one buffer) is within 3 of INT_MAX.
+\* TLC integers are 32 bit: sizes are kept as <<hi, lo>> in base 2^20.
+B20 == 1048576
+IntMaxPair == <<2047, 1048575>>
+AddTo(p, n) == <<p[1] + (p[2] + n) \div B20, (p[2] + n) % B20>>
+RECURSIVE SumItems(_,_,_,_)
+SumItems(items, i, nb, acc) == IF i > Len(items) THEN acc
+   ELSE SumItems(items, i + 1, nb, AddTo(AddTo(acc, (IF i > 1 THEN 1 ELSE 0) + Worst(nb) * items[i][1]), IF items[i][2] = 1 THEN 1 + Worst(nb) * items[i][3] ELSE 0))
+PairGt(a, b) == a[1] > b[1] \/ (a[1] = b[1] /\ a[2] > b[2])
+VBoundary(x) == LET need == SumItems(x.items, 1, x.nb, <<0, 0>>) IN
+     FailIf(PairGt(need, IntMaxPair) /\ x.rc = 0, "C17", "the exact worst-case size exceeds INT_MAX but the measuring call succeeded (with a wrapped figure)")
+  \o FailIf(~PairGt(need, IntMaxPair) /\ x.rc = 0 /\ (~x.nonneg \/ <<x.reqhi, x.reqlo>> # need), "C17", "reported size is not the worst-case size")
+  \o FailIf(~PairGt(need, IntMaxPair) /\ x.rc # 0, "C17", "a size that fits INT_MAX was refused")
+
+V(x) == CASE x.e = "ComposeReqBoundary" -> VBoundary(x) [] x.e = "ComposeReq" -> VComposeReq(x) [] x.e = "Compose" -> VCompose(x) [] x.e = "ComposeMalloc" -> VComposeMalloc(x)
           [] x.e = "Dissect" -> VDissect(x) [] x.e = "ComposeReqGiant" -> VGiant(x) [] OTHER -> Fail("C17", "unknown event")
 TNext == TStep(V)
 =============================================================================
